@@ -25,7 +25,9 @@ const (
 	// maxPortLen is the maximum length of a port's decimal representation.
 	maxPortLen = len("65535")
 	// maxHostPortLen is the maximum length of an origin's host-port part.
-	maxHostPortLen = maxHostLen + 1 + maxPortLen // 1 for colon character
+	// An absolute domain name may end with a full stop, which maxHostLen
+	// does not account for.
+	maxHostPortLen = maxHostLen + 1 + 1 + maxPortLen // 1 for a trailing full stop, 1 for colon character
 )
 
 // Origin represents a (tuple) [Web origin].
